@@ -1,6 +1,6 @@
 From AB Require Import Desc Generated GeneratedWf.
 From AB Require Import Tree TreeDefs TreeProofs TreeProofs2 TreeProofs3 TreeProofs4 TreeWF TreeWFProofs TreeRun TreeFacts.
-From AB Require Import Construct ConstructProofs ConstructWF TreeEdit TreeEditProofs TreeEditProofs2 TreeEditProofs3 TreeEditProofs4 TreeEditFacts.
+From AB Require Import Construct ConstructProofs ConstructWF TreeEdit TreeEditProofs TreeEditProofs2 TreeEditProofs3 TreeEditProofs4 TreeEditProofs5 TreeEditFacts.
 From Coq Require Import ZArith List Bool.
 Import ListNotations.
 
@@ -228,7 +228,6 @@ Proof. exact ex_item_hyps. Qed.
    remove_opt cuts everything between the pivot and the far end of the child and empties the slot.
    classes_pivots_ok: every class's extracted pivot chains are the ones of the generic scheme (part of wf_desc,
    C05_generated_classes_wf; C05_pivots_ok_all for the classes the harness evaluates with). *)
-From AB Require Import TreeEditProofs5.
 Theorem C05_pivots_ok_all : classes_pivots_ok all_classes.
 Proof. exact classes_pivots_ok_all. Qed.
 Theorem C05_create_optional : forall cs, classes_ok cs -> classes_pivots_ok cs -> forall root p f seps y root',
